@@ -112,6 +112,8 @@ CertProposal(e, j) ==
     /\ ReqStored(at)
     /\ ReqPh(at).from = at.primary /\ ReqPh(at).v = at.v /\ ReqPh(at).h = at.h
     /\ b.txs = ReqPh(at).txs /\ b.ts = ReqPh(at).ts /\ b.nonce = ReqPh(at).nonce
+\* ... and the transactions the library put into the block are the proposal's, in proposed order, none missing
+CertBody(e, j) == "body" \in DOMAIN e.cb[j] => e.cb[j].body = ReqPh(e.cb[j].at).txs
 NValidPc(at) == Cardinality({i \in Idx(at) : at.pc[i].k = "pc" /\ at.pc[i].v = at.v /\ at.pc[i].valid})
 PreCertCount(e, j) == NValidPc(e.cb[j].at) >= M(e.cb[j].at.n)
 
@@ -477,6 +479,7 @@ StepViolations(e, pre, cfg) ==
                           \cup ( IF CertCount(e, j) THEN {} ELSE {<<"C02", "CertCount", IF KF1At(e, j) THEN "KF-1" ELSE "">>} )
                           \cup P("C02", "CertTip", CertTip(e, j))
                           \cup P("C02", "CertProposal", CertProposal(e, j))
+                          \cup P("C02", "CertBody", ~ReqStored(e.cb[j].at) \/ CertBody(e, j))
                           \cup P("C05", "OneDecision", OneDecision(e, j))
                           \cup P("C08", "DecidedInView0", DecidedInView0(e, j))
                           \cup P("C08", "SameBlockInSync", SameBlockInSync(e, j))
@@ -484,6 +487,7 @@ StepViolations(e, pre, cfg) ==
                                  ELSE {<<"C09", "SilentViewBound", IF e.cb[j].block.h \in recPrim THEN "KF-2" ELSE "">>} )
                         : j \in OkCb(e, "ProcessBlock") }
       PerPre == UNION { P("C02", "PreCertCount", PreCertCount(e, j)) \cup P("C02", "PreCertProposal", CertProposal(e, j))
+                        \cup P("C02", "PreCertBody", ~ReqStored(e.cb[j].at) \/ CertBody(e, j))
                         \cup P("C07", "PreBlockOnce", PreBlockOnce(e, j) \/ \E k \in OkCb(e, "ProcessPreBlock") : k < j => FALSE)
                         : j \in OkCb(e, "ProcessPreBlock") }
       PerBc == UNION { P("C03", "NonEquivocation", NonEquivocation(e, j))
